@@ -108,7 +108,7 @@ Lemma create_index_cases c key u s t p n c' r :
   \/ exists c1, ((u = false /\ c1 = c) \/ (u = true /\ expire c = Ok c1)) /\
        ((c' = c1 /\ is_ok r = false)
         \/ (is_ok r = true /\ exists i, iname i = new_index_name key n
-                                        /\ c' = with_idx c1 (set_index i (idx c1)))).
+                                        /\ c' = with_idx_w c1 (set_index i (idx c1)))).
 Proof.
   unfold create_index. intros H. cbv zeta in H.
   match type of H with (if ?b then _ else _) = _ => destruct b end; [ inv_pair H; auto | ].
